@@ -41,9 +41,14 @@ Modelled here, not run by the correspondence driver: the `size_hint` transcripti
 `WMI.intoNext` (`IntoIter::next` of the wavelet matrix) and `Iter2.cursorStepM` (`AccessIter` with a `get` that can
 fault, for `WaveletMatrix::iter`), `Iter2.intoStep` / `intoStepLen` (`IntVector`'s `IntoIter`).
 
-NOT covered in this file: the run-length vector's `predecessor` / `successor` iterators beyond their first item
-(C03 gives the first item; that they continue with consecutive ranks is not proven) and the sparse `ZeroIter` on
-multisets (the Rust documents it as incorrect there).
+Run-length `predecessor(x)` / `successor(x)` (`rl_predecessor_continues`, `rl_successor_continues`,
+`rl_built_pred_succ`; Proofs/RLPredSucc.lean): the returned `OneIter` starts at the predecessor resp. successor and
+CONTINUES with the set bits of the following ranks to the end, under every forward call history.  The loops stop in
+a `RunIter` state that `next()` walks through (a run refused by the closure of `advance_if` leaves offset, position
+and limit untouched — also when the refused run is the first of the next block), with the rank inside the run that
+ends at the iterator position: the invariant `select_iter(r)` is handled with (`RLQ.drain_walk`).
+
+NOT covered in this file: the sparse `ZeroIter` on multisets (the Rust documents it as incorrect there).
 -/
 import Sds.Proofs.Iter
 import Sds.Proofs.IntVec
@@ -52,6 +57,7 @@ import Sds.Proofs.Sparse2
 import Sds.Proofs.Glue
 import Sds.Proofs.Glue2
 import Sds.Proofs.Iter2
+import Sds.Proofs.RLPredSucc
 
 namespace Sds.C10
 open Sds Outcome IterProofs Iter2
@@ -463,6 +469,47 @@ theorem rl_built_iterators (m : Mode) (calls : List RL.BCall) (hc : ∀ c ∈ ca
     (∀ (r : Nat) (cs : List FCall), ∃ st, v.selectZeroIter m r = ok st ∧
       RLI.zeroRun m v st cs = ok (dequeRunM ((pairs (zerosPos B)).drop r) (cs.map FCall.toICall))) :=
   RLI.build_iterators m calls hc b hb v hv hsz
+
+/-- **run-length `predecessor(x)`** for EVERY `x` (also `x ≥ len`, which behaves like `len - 1`): the iterator
+starts AT the predecessor (rank `k`; its first item is the nearest set bit at or before `x`) and continues with
+consecutive ranks to the end; it is empty when there is no set bit at or before `x` — every forward call history
+(`next` / `nth k` / `len`), no fault, both modes -/
+theorem rl_predecessor_continues (m : Mode) (v : RL) (B : List Bool) (hg : RLQ.Good v (maximalRuns B))
+    (e2 : v.ones = B.count true) (x : Nat) (cs : List FCall) :
+    ∃ st, v.predecessor m x = ok st ∧
+      RLI.oneRun m v st cs = ok (dequeRunM
+        (match predSpec B x with
+         | none => []
+         | some (k, _) => (pairs (onesPos B)).drop k) (cs.map FCall.toICall)) :=
+  RLPS.good_predecessor m B hg e2 x cs
+
+/-- **run-length `successor(x)`** for EVERY `x`: starts at the successor (rank `k` = number of set bits before `x`)
+and continues with consecutive ranks to the end; empty when there is no set bit at or after `x` -/
+theorem rl_successor_continues (m : Mode) (v : RL) (B : List Bool) (hg : RLQ.Good v (maximalRuns B))
+    (e2 : v.ones = B.count true) (x : Nat) (cs : List FCall) :
+    ∃ st, v.successor m x = ok st ∧
+      RLI.oneRun m v st cs = ok (dequeRunM
+        (match succSpec B x with
+         | none => []
+         | some (k, _) => (pairs (onesPos B)).drop k) (cs.map FCall.toICall)) :=
+  RLPS.good_successor m B hg e2 x cs
+
+/-- the same for EVERY vector built by a list of accepted builder calls (hypotheses of `rl_built_iterators`) -/
+theorem rl_built_pred_succ (m : Mode) (calls : List RL.BCall) (hc : ∀ c ∈ calls, RL.callArgsOk c)
+    (b : RLBuilder) (hb : RL.runBCalls m calls {} = ok b) (v : RL) (hv : RL.ofBuilder m b = ok v)
+    (hsz : v.blocks + 8 < U64) :
+    let B := calls.foldl RL.specCall []
+    (∀ (x : Nat) (cs : List FCall), ∃ st, v.predecessor m x = ok st ∧
+      RLI.oneRun m v st cs = ok (dequeRunM
+        (match predSpec B x with
+         | none => []
+         | some (k, _) => (pairs (onesPos B)).drop k) (cs.map FCall.toICall))) ∧
+    (∀ (x : Nat) (cs : List FCall), ∃ st, v.successor m x = ok st ∧
+      RLI.oneRun m v st cs = ok (dequeRunM
+        (match succSpec B x with
+         | none => []
+         | some (k, _) => (pairs (onesPos B)).drop k) (cs.map FCall.toICall))) :=
+  RLPS.build_pred_succ m calls hc b hb v hv hsz
 
 /-- the transcribed `len()` of the three exact-size run-length iterators is the model's `remaining` on every
 state the simulations pass through -/
